@@ -277,6 +277,9 @@ func retryOracles(run *retryRun, cfg string, modelSettled, stuck, havePlan bool,
 		want := msgOf(m, int(firstP.QoS))
 		for i, e := range pl {
 			p := e.pkt
+			if want.ID != 0 && p.HasID && p.ID != want.ID {
+				v = append(v, viol("C15", "caller-id-not-kept", "transmission %d of message %d carries identifier %d, the application had put %d on the message", i, m, p.ID, want.ID))
+			}
 			if p.Topic != want.Topic || string(p.Payload) != string(want.Payload) || p.Retain != want.Retain || p.QoS != firstP.QoS || (p.HasID && p.ID != firstP.ID) {
 				if p.Topic != want.Topic || string(p.Payload) != string(want.Payload) || p.Retain != want.Retain {
 					v = append(v, viol("C05", "publish-fields-on-retry", "transmission %d of message %d carries topic %q retain %v payload %x, the application asked for %q %v %x", i, m, p.Topic, p.Retain, p.Payload, want.Topic, want.Retain, want.Payload))
@@ -436,8 +439,13 @@ func retryOracles(run *retryRun, cfg string, modelSettled, stuck, havePlan bool,
 		}
 		if len(got) == 0 {
 			v = append(v, viol("C17", "inbound-dropped", "inbound message %d was not handed to handler %s registered on the client", m, want))
+			// C04: a PUBLISH delivered on an established connection is handed to the registered handler exactly once
+			v = append(v, viol("C04", "inbound-not-handed-over", "inbound PUBLISH %d was never handed to the handler (%s) although one was registered before it arrived", m, want))
 		} else if len(got) > 1 || got[0] != want {
 			v = append(v, viol("C17", "wrong-handler", "inbound message %d handed to %v, registered handler was %s", m, got, want))
+			if len(got) > 1 {
+				v = append(v, viol("C04", "inbound-handed-over-twice", "inbound PUBLISH %d was handed over %d times", m, len(got)))
+			}
 		}
 	}
 
